@@ -677,6 +677,23 @@ Section Store.
     rewrite Hw. cbn [rbind]. destruct (set_raw s _); cbn [rbind]; try reflexivity. now rewrite Hrd.
   Qed.
 
+  (* a store whose read fails: the failure comes out of every getter and out of the read-modify-write
+     of a bit field unchanged, and no write is computed (the result carries no new store) *)
+  Lemma store_read_fails s :
+    (forall a, get_raw s = Abort a ->
+       (forall key, bits_get get_raw od s key = Abort a) /\
+       (forall key v, bits_set get_raw set_raw od s key v = Abort a) /\
+       (forall key v, bits_held get_raw set_raw od s key v = Abort a) /\
+       phys_get get_raw od s = Abort a /\ desc_get get_raw od s = Abort a) /\
+    (forall k, get_raw s = Err k ->
+       (forall key, bits_get get_raw od s key = Err k) /\
+       (forall key v, bits_set get_raw set_raw od s key v = Err k) /\
+       (forall key v, bits_held get_raw set_raw od s key v = Err k) /\
+       phys_get get_raw od s = Err k /\ desc_get get_raw od s = Err k).
+  Proof.
+    split; intros x He; unfold bits_get, bits_set, bits_held, phys_get, desc_get; rewrite He; repeat split; reflexivity.
+  Qed.
+
   (* a key that the code refuses never reaches the store *)
   Lemma store_bits_error s raw key v k : get_raw s = Ok raw ->
     bits_write (od_bitdefs od) raw key v = Err k -> bits_set get_raw set_raw od s key v = Err k.
@@ -782,6 +799,6 @@ Theorem rw_agrees od c :
   (forall fmt o, rw_route fmt = 0 -> step_op od c (OWrite fmt o) = (VNone, c) /\ step_op od c (ORead fmt) = (VNone, c)).
 Proof.
   repeat split; intros; try reflexivity.
-  - cbn [step_op]. now rewrite H.
-  - cbn [step_op]. now rewrite H.
+  - unfold step_op. cbn [step_op_g]. now rewrite H.
+  - unfold step_op. cbn [step_op_g]. now rewrite H.
 Qed.
